@@ -14,7 +14,7 @@ use dvb_gse_rust::gse_encap::{generate_gse_header, EncapStatus, Encapsulator};
 use dvb_gse_rust::header_extension::{Extension, NewExtensionError};
 use dvb_gse_rust::label::{Label, LabelType};
 use dvb_gse_rust::utils::{GseCompletePacket, GseEndFragPacket, GseFirstFragPacket, GseIntermediatePacket, Serialisable};
-use std::panic::{catch_unwind, AssertUnwindSafe};
+use std::panic::AssertUnwindSafe;
 
 fn kind_name(dbg: &str) -> &'static str {
     match dbg {
@@ -40,7 +40,7 @@ pub fn hdr(out: &mut Out) {
     // decode table, run-compressed losslessly: a new run starts whenever the
     // observation is not "same class, length + 1"
     let obs = |w: u32| -> (String, usize) {
-        match catch_unwind(|| read_gse_header(w as u16)) {
+        match cu("hdr", || read_gse_header(w as u16)) {
             Err(_) => ("panic".to_string(), 0),
             Ok(None) => ("none".to_string(), 0),
             Ok(Some((len, k, l))) => (format!("{}/{}", kind_name(&format!("{:?}", k)), lt_name(&l)), len),
@@ -75,7 +75,7 @@ pub fn hdr(out: &mut Out) {
     for (dbg, kname) in [("CompletePkt", "complete"), ("FirstFragPkt", "first"), ("IntermediateFragPkt", "inter"), ("EndFragPkt", "end")] {
         // any word that decodes to this kind yields the PktType value (never unwrap a particular word:
         // a wrong decoder is data, not a reason for the harness to die)
-        let found = (0..=65535u32).find_map(|w| match catch_unwind(|| read_gse_header(w as u16)) {
+        let found = (0..=65535u32).find_map(|w| match cu("hdr", || read_gse_header(w as u16)) {
             Ok(Some((_, k, _))) if format!("{:?}", k) == dbg => Some(k),
             _ => None,
         });
@@ -118,7 +118,7 @@ pub fn extnew(out: &mut Out) {
     for dlen in 0..=10usize {
         let data: Vec<u8> = (0..dlen).map(|i| (i * 17 + 3) as u8).collect();
         let obs = |id: u32| -> String {
-            match catch_unwind(|| Extension::new(id as u16, &data)) {
+            match cu("extnew", || Extension::new(id as u16, &data)) {
                 Err(_) => "panic".into(),
                 Ok(Err(NewExtensionError::IdAndVecSizeNotMatchingError)) => "size".into(),
                 Ok(Err(NewExtensionError::IncorrectExtensionId)) => "id".into(),
@@ -156,7 +156,7 @@ pub fn extnew(out: &mut Out) {
 
 // --------------------------------------------------------------------- C12
 fn crc_event(out: &mut Out, tl: u16, ptype: u16, label: &[u8], pdu: &[u8]) {
-    let r = catch_unwind(|| DefaultCrc {}.calculate_crc32(pdu, ptype, tl, label));
+    let r = cu("crc", || DefaultCrc {}.calculate_crc32(pdu, ptype, tl, label));
     let o = Obj::new().str("ev", "crc_vec").num("tl", tl as usize).num("ptype", ptype as usize).bytes("label", label);
     let o = if pdu.len() <= 80 {
         o.bytes("pdu", pdu).num("pdu_ref", 0)
@@ -236,7 +236,7 @@ fn utils_roundtrip(out: &mut Out, bytes: &[u8], src: &str) {
     }
     let kind = bytes[0] >> 6;
     let n = bytes.len();
-    let r = catch_unwind(AssertUnwindSafe(|| -> Option<(String, Vec<u8>)> {
+    let r = cu("utils", AssertUnwindSafe(|| -> Option<(String, Vec<u8>)> {
         let mut regen = vec![0xAAu8; n];
         let d = match kind {
             3 => {
@@ -403,7 +403,7 @@ pub fn utils(out: &mut Out, seed: u64, thorough: bool) {
         let tl = rng.next() as u16;
         let crc = rng.next() as u32;
         let kind = i % 4;
-        let r = catch_unwind(AssertUnwindSafe(|| -> (String, Vec<u8>) {
+        let r = cu("utils", AssertUnwindSafe(|| -> (String, Vec<u8>) {
             match kind {
                 0 => {
                     let gl = 2 + label.len() + plen;
@@ -452,7 +452,7 @@ pub fn utils(out: &mut Out, seed: u64, thorough: bool) {
                     let tl2 = (2 + label.len() + plen + rest) as u16;
                     let gl = 5 + label.len() + plen;
                     let mut b = vec![0x55u8; gl + 2];
-                    let gen = catch_unwind(AssertUnwindSafe(|| GseFirstFragPacket::new(gl as u16, fragid, tl2, ptype, label, &pdu).generate(&mut b)));
+                    let gen = cu("utils", AssertUnwindSafe(|| GseFirstFragPacket::new(gl as u16, fragid, tl2, ptype, label, &pdu).generate(&mut b)));
                     if gen.is_ok() {
                         rx.ev_reset(out);
                         rx.note_id(fragid);
@@ -463,7 +463,7 @@ pub fn utils(out: &mut Out, seed: u64, thorough: bool) {
                         let crc = crc32_mpeg(&[&tl2.to_be_bytes(), &ptype.to_be_bytes(), label.get_bytes(), &whole]);
                         let gle = 5 + rest;
                         let mut e = vec![0x55u8; gle + 2];
-                        if catch_unwind(AssertUnwindSafe(|| GseEndFragPacket::new(gle as u16, fragid, &tail, crc).generate(&mut e))).is_ok() {
+                        if cu("utils", AssertUnwindSafe(|| GseEndFragPacket::new(gle as u16, fragid, &tail, crc).generate(&mut e))).is_ok() {
                             let o = rx.ev_decap(out, &e, vec![("utl", "true".to_string())]);
                             if let Some(bx) = o.returned {
                                 rx.ev_provision_buf(out, bx);
@@ -578,7 +578,7 @@ pub fn memops(out: &mut Out, seed: u64, thorough: bool, scn: Option<&str>) {
                         pattern(next_len - 1)
                     };
                     let tag = buf.len();
-                    let r = catch_unwind(AssertUnwindSafe(|| mem.provision_storage(buf)));
+                    let r = cu("memops", AssertUnwindSafe(|| mem.provision_storage(buf)));
                     let (res, back) = match r {
                         Err(_) => ("panic", 0),
                         Ok(Ok(())) => ("ok", 0),
@@ -599,7 +599,7 @@ pub fn memops(out: &mut Out, seed: u64, thorough: bool, scn: Option<&str>) {
                     o = o.str("opk", "provision").num("tag", tag).str("res", res).num("rtag", back);
                 }
                 "new_pdu" => {
-                    let r = catch_unwind(AssertUnwindSafe(|| mem.new_pdu()));
+                    let r = cu("memops", AssertUnwindSafe(|| mem.new_pdu()));
                     let (res, t) = match r {
                         Err(_) => ("panic", 0),
                         Ok(Ok(b)) => {
@@ -616,7 +616,7 @@ pub fn memops(out: &mut Out, seed: u64, thorough: bool, scn: Option<&str>) {
                 "new_frag" => {
                     serial += 1;
                     let ctx = mk_ctx(arg as u8, serial);
-                    let r = catch_unwind(AssertUnwindSafe(|| mem.new_frag(ctx)));
+                    let r = cu("memops", AssertUnwindSafe(|| mem.new_frag(ctx)));
                     let (res, t, rs) = match r {
                         Err(_) => ("panic", 0, 0),
                         Ok(Ok((c, b))) => {
@@ -633,7 +633,7 @@ pub fn memops(out: &mut Out, seed: u64, thorough: bool, scn: Option<&str>) {
                     o = o.str("opk", "new_frag").num("id", arg).num("serial", serial as usize).str("res", res).num("rtag", t).num("rserial", rs);
                 }
                 "take_frag" => {
-                    let r = catch_unwind(AssertUnwindSafe(|| mem.take_frag(arg as u8)));
+                    let r = cu("memops", AssertUnwindSafe(|| mem.take_frag(arg as u8)));
                     let (res, t, rs, rid) = match r {
                         Err(_) => ("panic", 0, 0, 0),
                         Ok(Ok((c, b))) => {
@@ -664,7 +664,7 @@ pub fn memops(out: &mut Out, seed: u64, thorough: bool, scn: Option<&str>) {
                         }
                     };
                     let (id, s, tag) = (c.frag_id as usize, c.pdu_len as usize, b.len());
-                    let r = catch_unwind(AssertUnwindSafe(|| mem.save_frag((c, b))));
+                    let r = cu("memops", AssertUnwindSafe(|| mem.save_frag((c, b))));
                     let res = match r {
                         Err(_) => "panic",
                         Ok(Ok(())) => "ok",
